@@ -1,7 +1,7 @@
 (* Run/RunC16.v — case interpreters for C16 (and the encoders shared with RunC17): the harness renders
    its inputs as Z literals, these functions run the model (Model/Time.v) and return cells. *)
 From Coq Require Import ZArith List Bool.
-From Tevec Require Export Base.Prelude Spec.Calendar Model.Time Run.Codec.
+From Tevec Require Export Base.Prelude Spec.Calendar Model.Time Model.TimeAccess Run.Codec.
 Import ListNotations.
 Local Open Scope Z_scope.
 
@@ -41,6 +41,20 @@ Definition r16_cr (u : tunit) (x : Z) : list Z :=
   ++ c_optz (dt_field cr_year u x) ++ c_optz (dt_field cr_month u x) ++ c_optz (dt_field cr_dom u x)
   ++ c_optz (dt_field cr_hour u x) ++ c_optz (dt_field cr_minute u x) ++ c_optz (dt_field cr_second u x)
   ++ c_optz (dt_field cr_sod u x) ++ c_optz (dt_field cr_nanos u x).
+
+(* X9: is_nat / is_not_nat of DateTime<U>(x), Time(x), TimeDelta::from(x); into_opt_i64 . from_opt_i64 (Some x);
+   from_opt_i64 None *)
+Definition r16_flags (x : Z) : list Z :=
+  c_bool (is_nat x) ++ c_bool (is_not_nat x)
+  ++ c_bool (is_nat x) ++ c_bool (is_not_nat x)
+  ++ c_bool (td_is_nat (td_from_i64 x)) ++ c_bool (td_is_not_nat (td_from_i64 x))
+  ++ c_optz (into_opt_i64 (from_opt_i64 (Some x))) ++ c_int (from_opt_i64 None).
+
+(* X9: the TryFrom impl called directly (secs, nanos | null null), the deprecated to_cr, From<chrono> of the
+   TryFrom result *)
+Definition r16_tryfrom (u : tunit) (x : Z) : list Z :=
+  let o := try_from_cr u x in
+  c_optcr o ++ c_optcr (to_cr u x) ++ match o with Some c => c_res (from_cr u c) | None => c_null end.
 
 (* From<chrono::DateTime<Utc>> for a chrono value given as (secs, nanos) (in chrono's range), and
    as_cr of the result *)
